@@ -82,7 +82,10 @@ def opCmp2 : RM Res := do
         | some s => s!"non-compliant answer {showJ6 s}"
         | none => "")]
       -- sentinel previous changes the reference vector between the two runs: superset only otherwise
-      if !(prev.j1.isNaN && (entry == 1 || entry == 3)) then
+      -- (only the 6-DOF continuation: its recovered singular candidate depends on the reference; the 5-DOF one keeps
+      -- the caller's J6 and the same J1..J5 whatever the reference is)
+      -- (with a parallelogram on top a whole-turn shift of the driven joint changes the coupled one by s*2pi: skip)
+      if !(prev.j1.isNaN && (entry == 1 || hasPara k)) then
         let lost := b.find? (fun s => surely s && !(a.any (fun t => equivJ6 1e-9 s t)))
         preds := preds ++ [("C08.superset", lost.isNone, match lost with
           | some s => s!"compliant solution {showJ6 s} of the unconstrained query is not returned with limits"
